@@ -84,14 +84,24 @@ def plain_quad(q):
     return f
 
 
-def build_api(order, direct, default=None, setter=False, numeric=False):
+def build_api(order, direct, default=None, setter=False, numeric=False, zero_q=None, shared=False):
     from atsim.potentials import create_Multi_Range_Potential_Form, Multi_Range_Defn
     from atsim.potentials._multi_range_potential_form import Multi_Range_Potential_Form_Deriv2
+    from atsim.potentials import potentialforms as pf
 
     def callable_for(q):
+        if q == zero_q:
+            return pf.zero()
         return plain_quad(q) if (numeric and q % 2) else R.api_item(quad(q))
     defs = [Multi_Range_Defn(m, (float('-inf') if s is None else s), callable_for(q)) for m, s, q in order]
     kw = {} if default is None else {'default_value': default}
+    if shared:
+        # the same Multi_Range_Defn INSTANCES also serve two other potentials whose further ranges start elsewhere
+        obj = Multi_Range_Potential_Form_Deriv2(*defs, **kw)
+        o2 = Multi_Range_Potential_Form_Deriv2(defs[0], Multi_Range_Defn('>=', 0.5, R.api_item(quad(7))), Multi_Range_Defn('>', 1.5, R.api_item(quad(6))))
+        o3 = create_Multi_Range_Potential_Form(defs[-1], Multi_Range_Defn('>', 2.5, R.api_item(quad(6))), Multi_Range_Defn('>=', -1.0, R.api_item(quad(5))))
+        o2(0.75), o3.deriv(2.75)
+        return obj
     if setter:
         # built with other ranges first, then re-assigned through the public range_defns property
         other = [Multi_Range_Defn('>', 0.25, R.api_item(quad(7))), Multi_Range_Defn('>=', 2.75, R.api_item(quad(6))), Multi_Range_Defn('>', 5.0, R.api_item(quad(5)))]
@@ -134,7 +144,9 @@ def run_case(case):
     for order in perms:
         objs = [('class', build_api(order, True)), ('factory', build_api(order, False)),
                 ('class default_value=25', build_api(order, True, default=25.0)), ('range_defns setter', build_api(order, True, setter=True)),
-                ('factory with numerical ranges', build_api(order, False, numeric=True))]
+                ('factory with numerical ranges', build_api(order, False, numeric=True)),
+                ('class default_value=25 and a zero() range', build_api(order, True, default=25.0, zero_q=order[0][2])),
+                ('class, range definitions shared with other potentials', build_api(order, True, shared=True))]
         if not case['api_inf']:
             objs.append(('potable', build_cfg(order, False)))
             if order[0][0] == '>' and order[0][1] == 0.0:
@@ -156,6 +168,8 @@ def run_case(case):
                     want = exp[r]
                     if how.startswith('class default') and not acceptable(ranges, r):
                         want = [(25.0, 0.0, 0.0)]
+                    elif 'zero() range' in how:
+                        want = [(0.0, 0.0, 0.0) if ranges[i][2] == order[0][2] else e3 for i, e3 in zip(acceptable(ranges, r), exp[r])]
                     if 'numerical' in how:
                         # documented fallback h = 1e-6: first derivative to ~1e-9, second (difference of differences) to ~1e-3
                         ok = any(close(got[0], e3[0]) and abs(got[1] - e3[1]) <= 1e-6 * (1 + abs(e3[1])) and abs(got[2] - e3[2]) <= 5e-2 * (1 + abs(e3[2]) + abs(e3[0])) for e3 in want)
